@@ -40,13 +40,15 @@ def run(run, only=None):
                    "TimesDistributor on shared sums (its output is inherently exponential)"]
     t = 200.0 if quick else 900.0
     jobs = []
-    extra_fams = ["str", "int-div", "bv-misc"]
+    extra_fams = ["str", "int-div", "bv-misc", "retry-arith", "retry-bool"]
     for fam in fams + (extra_fams if quick else []):
         for svc in svcs:
             if not c20_xh.applicable(fam, svc):
                 continue
             if quick and fam in extra_fams and svc not in ("construct", "simplify", "substitute", "logic", "types", "size-dag",
                                                            "dagprint-parse", "atoms"):
+                continue
+            if fam.startswith("retry-") and svc not in ("construct", "simplify"):
                 continue
             if svc == "times-distributor" and fam != "arith":
                 continue
